@@ -28,11 +28,24 @@ def main():
     seed = int(sys.argv[1]) if len(sys.argv) > 1 else 0
     rng = random.Random(seed)
     import ray
+    t_start = time.time()
     with quiet():
         # workers inherit the driver's environment (PYTHONPATH=<repo>:<verif>); no runtime_env (needs no agent)
         ray.init(num_cpus=3, include_dashboard=False, log_to_driver=False)
+    t_init = time.time() - t_start
     out = []
     d = rg.scratch("c12ray")
+    # completion order of the remote tasks, observed through ray.wait itself
+    import wannierberri.run_grid as run_grid
+    orders = []
+    real_wait = ray.wait
+
+    def spy_wait(refs, **kw):
+        ready, rest = real_wait(refs, **kw)
+        pos = {r: i for i, r in enumerate(refs)}
+        orders[-1].append(sorted(pos[r] for r in ready))
+        return ready, rest
+    ray.wait = spy_wait
     try:
         for name, kind in (("haldane_c3", "integrate"), ("cubic_c4i", "integrate"), ("haldane", "path"), ("cubic", "grid")):
             system = rg.toy_system(name)
@@ -59,7 +72,10 @@ def main():
             common = dict(fout_name=d + "/o", file_Klist_path=d + "/kl", **kw)
             with quiet():
                 r0 = wb.run(system, grid, calcs, parallel=False, **common)
+                orders.append([])
                 r1 = wb.run(system, grid, calcs, parallel=True, **common)
+            # out of order = some answer of ray.wait was not a prefix 0..m-1 of the submitted tasks
+            ooo = any(a != list(range(len(a))) for a in orders[-1])
             ok, what = True, ""
             for k, v in r0.results.items():
                 if hasattr(v, "Energies"):
@@ -75,12 +91,12 @@ def main():
                             a, b = t0.results[q].data, t1.results[q].data
                             if a.shape != b.shape or np.abs(a - b).max() > 1e-10 * max(1, np.abs(a).max()):
                                 ok, what = False, f"tabulated '{q}' differs between real-ray parallel and serial run"
-            out.append(dict(case=case, ok=ok, what=what, out_of_order=(kind == "integrate")))
+            out.append(dict(case=case, ok=ok, what=what, out_of_order=bool(ooo)))
     finally:
         with quiet():
             ray.shutdown()
         shutil.rmtree(d, ignore_errors=True)
-    print("RESULT " + json.dumps(dict(cases=out)))
+    print("RESULT " + json.dumps(dict(cases=out, init_s=round(t_init, 1), total_s=round(time.time() - t_start, 1))))
 
 
 main()
